@@ -1,11 +1,12 @@
 /-
   C07 — dual hashes are a lossless, canonical encoding of raw plus normalized.
 -/
-import FfuzzyProofs.Dual.Valid
+import FfuzzyProofs.Dual.ParseRoute
+import FfuzzyProofs.Properties.C05
 import FfuzzyProofs.Properties.C06
 import FfuzzyProofs.Properties.C16
 namespace Ffuzzy.C07
-open Ffuzzy Ffuzzy.Spec Ffuzzy.Collapse Ffuzzy.DualA Ffuzzy.DualB
+open Ffuzzy Ffuzzy.Spec Ffuzzy.Collapse Ffuzzy.DualA Ffuzzy.DualB Ffuzzy.DualP
 
 /-- the RLE block of a raw block hash -/
 def rleOf (c : Nat) (x : List UInt8) : List UInt8 := padTo ((compressA x).2.map encodeEnt) c 0
@@ -326,5 +327,203 @@ theorem dual_valid (s2 : Nat) (hs2 : s2 = 32 ∨ s2 = 64) (h : FH) (hv : FH.Vali
     isValidRleBlock (padTo (collapse (h.bh2.take h.len2.toNat)) s2 0) (rleOf (DH.c2 s2) (h.bh2.take h.len2.toNat))
       (collapse (h.bh2.take h.len2.toNat)).length.toUInt8) = true
   rw [v1, v2]; rfl
+
+/-! ### the text route -/
+
+open Ffuzzy.ParseBh Ffuzzy.ParseBs Ffuzzy.ParseField Ffuzzy.ParseMain in
+/-- what a successful three-field parse was made of -/
+theorem parseThreeFields_ok_parts (cfg : Cfg) (s2 : Nat) (norm lr : Bool) (str : List UInt8) (b : UInt32) (off : Nat)
+    (p : Parsed) (hbs : parseBlockSize str = .ok (b, off)) (hp : parseThreeFields cfg s2 norm lr str = .ok p) :
+    (parseBlockHash cfg FULL_SIZE (List.replicate FULL_SIZE 0) norm lr (str.drop off)).state = .metColon ∧
+    p.reports2 = (parseBlockHash cfg s2 (List.replicate s2 0) norm lr
+      ((str.drop off).drop (parseBlockHash cfg FULL_SIZE (List.replicate FULL_SIZE 0) norm lr (str.drop off)).consumed)).reports := by
+  unfold parseThreeFields at hp
+  rw [hbs] at hp
+  simp only at hp
+  split at hp
+  · simp at hp
+  · simp at hp
+  · simp at hp
+  · simp at hp
+  · next hst =>
+    refine ⟨hst, ?_⟩
+    split at hp
+    · have := Except.ok.inj hp; rw [← this]
+    · have := Except.ok.inj hp; rw [← this]
+    · simp at hp
+    · simp at hp
+    · simp at hp
+
+open Ffuzzy.ParseBh Ffuzzy.ParseBs Ffuzzy.ParseField Ffuzzy.ParseMain in
+/-- the raw hash denoted by an accepted dual text -/
+def rawOf (s2 log : Nat) (r1 r3 : List UInt8) : FH :=
+  { bh1 := padTo ((pre r1).map b64Index) FULL_SIZE 0, bh2 := padTo ((pre r3).map b64Index) s2 0,
+    len1 := (pre r1).length.toUInt8, len2 := (pre r3).length.toUInt8, log := log.toUInt8 }
+
+open Ffuzzy.ParseBh Ffuzzy.ParseBs Ffuzzy.ParseField Ffuzzy.ParseMain in
+/-- **C07 (text route).** the dual parser never panics; it fails exactly when the reference grammar
+    for dual hashes rejects (naming the same part), and otherwise returns the canonical dual hash of
+    the raw hash the text denotes, with the reference end index -/
+theorem dual_parse_exact (cfg : Cfg) (s2 : Nat) (hs2 : s2 = 32 ∨ s2 = 64) (t : List UInt8) :
+    (∀ o, refParse cfg s2 true true t = .error o → ∃ e, DH.parse cfg s2 t = some (.error e) ∧ e.origin = o) ∧
+    (∀ ro, refParse cfg s2 true true t = .ok ro →
+      ∃ r1 r3, afterDigits t = 58 :: r1 ∧ post r1 = 58 :: r3 ∧
+        FH.Valid s2 false (rawOf s2 ro.log r1 r3) ∧
+        DH.parse cfg s2 t = some (.ok (dualOf s2 (rawOf s2 ro.log r1 r3), ro.index))) := by
+  have hle : s2 ≤ 64 := by rcases hs2 with e | e <;> omega
+  have hc2 : s2 ≤ 4 * DH.c2 s2 := by unfold DH.c2; rcases hs2 with e | e <;> subst e <;> decide
+  have hd : (true = true → true = true ∧ true = true) ∧ (true = false → true = false) :=
+    ⟨fun _ => ⟨rfl, rfl⟩, fun h => by simp at h⟩
+  have hspec := parseThreeFields_spec cfg s2 true true true t hd (by omega)
+  have hbsf := blockSize_field t
+  refine ⟨fun o ho => ?_, fun ro hro => ?_⟩
+  · obtain ⟨e, he, hor⟩ := hspec.2 o ho
+    unfold DH.parse
+    cases hbs : parseBlockSize t with
+    | error e' =>
+      simp only
+      have : parseThreeFields cfg s2 true true t = .error e' := by unfold parseThreeFields; rw [hbs]
+      rw [this] at he
+      have := Except.error.inj he
+      exact ⟨e', rfl, by rw [this]; exact hor⟩
+    | ok bo =>
+      obtain ⟨b, off⟩ := bo
+      simp only
+      obtain ⟨rle1, hr1⟩ := (field_reports cfg FULL_SIZE DH.c1 (by decide) (by decide) (List.replicate FULL_SIZE 0) (t.drop off) (by simp)).1
+      rw [hr1]
+      simp only
+      rw [he]
+      simp only
+      split
+      · obtain ⟨rle2, hr2⟩ := (field_reports cfg s2 (DH.c2 s2) hle hc2 (List.replicate s2 0)
+          ((t.drop off).drop (parseBlockHash cfg FULL_SIZE (List.replicate FULL_SIZE 0) true true (t.drop off)).consumed) (by simp)).1
+        rw [hr2]
+        exact ⟨e, rfl, hor⟩
+      · exact ⟨e, rfl, hor⟩
+  · obtain ⟨p, hp, ha⟩ := hspec.1 ro hro
+    obtain ⟨r1, r3, log, h0, hlog, hp1, hroe⟩ := C05.refParse_ok_shape cfg s2 true true t ro hro
+    obtain ⟨b, hb, hbl, hl31⟩ := hbsf.1 r1 log h0 hlog
+    obtain ⟨hst1, hrep2⟩ := parseThreeFields_ok_parts cfg s2 true true t b _ p hb hp
+    have hbuf : t.drop ((digits t).length + 1) = r1 := by
+      have : t.drop ((digits t).length + 1) = (t.drop (digits t).length).drop 1 := by rw [List.drop_drop]
+      rw [this]
+      change (afterDigits t).drop 1 = r1
+      rw [h0]; rfl
+    rw [hbuf] at hst1 hrep2
+    -- the two fields fit
+    have hfits : fits cfg true true FULL_SIZE (pre r1) = true ∧ fits cfg true true s2 (pre r3) = true := by
+      have hraw := hro
+      rw [refParse_unfold, h0] at hraw
+      simp only [bne_self_eq_false, Bool.false_eq_true, if_false, hlog] at hraw
+      rw [hp1] at hraw
+      simp only [bne_self_eq_false, Bool.false_eq_true, if_false] at hraw
+      have f1 : fits cfg true true FULL_SIZE (pre r1) = true := by
+        cases hf : fits cfg true true FULL_SIZE (pre r1)
+        · simp [hf] at hraw
+        · rfl
+      rw [f1] at hraw
+      simp only [Bool.not_true, Bool.false_eq_true, if_false] at hraw
+      have f2 : fits cfg true true s2 (pre r3) = true := by
+        cases hf : fits cfg true true s2 (pre r3)
+        · simp [hf] at hraw
+        · rfl
+      exact ⟨f1, f2⟩
+    have hF1 := (fits_iff cfg FULL_SIZE true true true r1 hd).mpr hfits.1
+    have hF2 := (fits_iff cfg s2 true true true r3 hd).mpr hfits.2
+    have fc1 := field_cases cfg FULL_SIZE true true true r1 hd
+    obtain ⟨_, _, _, _, g5, _, _⟩ := fc1.2 hfits.1
+    obtain ⟨_, cn1⟩ := g5 r3 hp1
+    have hbuf2 : r1.drop (parseBlockHash cfg FULL_SIZE (List.replicate FULL_SIZE 0) true true r1).consumed = r3 := by
+      rw [cn1]
+      have : r1.drop ((pre r1).length + 1) = (r1.drop (pre r1).length).drop 1 := by rw [List.drop_drop]
+      rw [this]
+      change (post r1).drop 1 = r3
+      rw [hp1]; rfl
+    rw [hbuf2] at hrep2
+    have hR1 := (field_reports cfg FULL_SIZE DH.c1 (by decide) (by decide) (List.replicate FULL_SIZE 0) r1 (by simp)).2 hF1
+    have hR2 := (field_reports cfg s2 (DH.c2 s2) hle hc2 (List.replicate s2 0) r3 (by simp)).2 hF2
+    -- lengths of the raw fields
+    have hfit_len : ∀ (cap : Nat) (x : List UInt8), fits cfg true true cap x = true → x.length ≤ cap := by
+      intro cap x hx
+      unfold fits at hx
+      simpa using hx
+    have l1 := hfit_len _ _ hfits.1
+    have l2 := hfit_len _ _ hfits.2
+    unfold FULL_SIZE at l1
+    -- the raw object
+    have hsym : ∀ r, ∀ x ∈ (pre r).map b64Index, x < 64 := by
+      intro r x hx
+      simp only [List.mem_map] at hx
+      obtain ⟨ch, hch, rfl⟩ := hx
+      exact (b64_roundtrip ch (pre_all r ch hch)).2
+    have hvalid : FH.Valid s2 false (rawOf s2 ro.log r1 r3) := by
+      have hrl : ro.log = log := by rw [hroe]
+      have t1 : (pre r1).length.toUInt8.toNat = (pre r1).length := by simp [Nat.toUInt8, UInt8.toNat_ofNat']; omega
+      have t2 : (pre r3).length.toUInt8.toNat = (pre r3).length := by simp [Nat.toUInt8, UInt8.toNat_ofNat']; omega
+      refine ⟨?_, ?_, ?_⟩
+      · show ro.log.toUInt8 < 31
+        apply UInt8.lt_iff_toNat_lt.mpr
+        rw [hrl]; simp [Nat.toUInt8, UInt8.toNat_ofNat']; omega
+      · refine ⟨by unfold rawOf padTo FULL_SIZE; simp; omega, by show (pre r1).length.toUInt8.toNat ≤ FULL_SIZE; rw [t1]; exact l1, ?_, ?_, by simp⟩
+        · show ∀ x ∈ (padTo ((pre r1).map b64Index) FULL_SIZE 0).take (pre r1).length.toUInt8.toNat, x < 64
+          rw [t1]; unfold padTo
+          rw [List.take_left' (by simp)]
+          exact hsym r1
+        · show ∀ x ∈ (padTo ((pre r1).map b64Index) FULL_SIZE 0).drop (pre r1).length.toUInt8.toNat, x = 0
+          rw [t1]; unfold padTo
+          rw [List.drop_left' (by simp)]
+          intro x hx; exact (List.mem_replicate.mp hx).2
+      · refine ⟨by unfold rawOf padTo; simp; omega, by show (pre r3).length.toUInt8.toNat ≤ s2; rw [t2]; exact l2, ?_, ?_, by simp⟩
+        · show ∀ x ∈ (padTo ((pre r3).map b64Index) s2 0).take (pre r3).length.toUInt8.toNat, x < 64
+          rw [t2]; unfold padTo
+          rw [List.take_left' (by simp)]
+          exact hsym r3
+        · show ∀ x ∈ (padTo ((pre r3).map b64Index) s2 0).drop (pre r3).length.toUInt8.toNat, x = 0
+          rw [t2]; unfold padTo
+          rw [List.drop_left' (by simp)]
+          intro x hx; exact (List.mem_replicate.mp hx).2
+    refine ⟨r1, r3, h0, hp1, hvalid, ?_⟩
+    -- block hashes of the raw object
+    have hbh1 : (rawOf s2 ro.log r1 r3).blockHash1 = (pre r1).map b64Index := by
+      unfold FH.blockHash1 rawOf
+      simp only
+      have t1 : (pre r1).length.toUInt8.toNat = (pre r1).length := by simp [Nat.toUInt8, UInt8.toNat_ofNat']; omega
+      rw [t1]; unfold padTo; exact List.take_left' (by simp)
+    have hbh2 : (rawOf s2 ro.log r1 r3).blockHash2 = (pre r3).map b64Index := by
+      unfold FH.blockHash2 rawOf
+      simp only
+      have t2 : (pre r3).length.toUInt8.toNat = (pre r3).length := by simp [Nat.toUInt8, UInt8.toNat_ofNat']; omega
+      rw [t2]; unfold padTo; exact List.take_left' (by simp)
+    have hno := normalize_obj s2 hle _ hvalid
+    rw [hbh1, hbh2] at hno
+    have cm : ∀ r, refBh true r = collapse ((pre r).map b64Index) := by
+      intro r
+      unfold refBh
+      simp only [if_true]
+      exact (collapse_map b64Index (pre r) (fun a ha b hb => b64Index_inj a b (pre_all r a ha) (pre_all r b hb))).symm
+    unfold DH.parse
+    rw [hb]
+    simp only
+    rw [hbuf, hR1]
+    simp only
+    rw [hp]
+    simp only
+    rw [hrep2, hR2]
+    simp only
+    congr 3
+    · unfold dualOf
+      congr 1
+      · unfold rleOf; rw [hbh1]
+      · unfold rleOf; rw [hbh2]
+      · rw [hno]
+        have e1 : ro.bh1 = collapse ((pre r1).map b64Index) := by rw [hroe]; exact cm r1
+        have e2 : ro.bh2 = collapse ((pre r3).map b64Index) := by rw [hroe]; exact cm r3
+        have hlog2 : p.log = (rawOf s2 ro.log r1 r3).log := by
+          show p.log = ro.log.toUInt8
+          apply UInt8.toNat_inj.mp
+          rw [ha.log]; simp [Nat.toUInt8, UInt8.toNat_ofNat']
+          have := ha.logLt; omega
+        rw [ha.bh1, ha.bh2, ha.len1, ha.len2, e1, e2, hlog2]
+    · exact ha.index
 
 end Ffuzzy.C07
